@@ -356,7 +356,7 @@ func crashSig(dump string) string {
 		}
 		if inRun && strings.HasPrefix(l, "github.com/NVIDIA/KAI-scheduler/pkg/") {
 			fn := l
-			if i := strings.Index(fn, "("); i > 0 {
+			if i := strings.LastIndex(fn, "("); i > 0 {
 				fn = fn[:i]
 			}
 			return strings.TrimPrefix(fn, "github.com/NVIDIA/KAI-scheduler/pkg/")
